@@ -612,3 +612,20 @@ Qed.
 Corollary parse_render_valid v rest : wf v -> jvalid v -> follow_ok rest ->
   parse (size v) (render v ++ rest) = Some (v, rest).
 Proof. intros Hw Hv Hf. rewrite (parse_render v rest Hw Hf). rewrite (jimage_valid v Hv). reflexivity. Qed.
+
+(* faithfulness as injectivity: two well-formed values with the same rendering (compact or indented, at any depth, even one
+   compact and one indented at different depths when the bytes coincide) have the same JSON image — the line determines the
+   image *)
+Theorem render_g_injective ind1 d1 ind2 d2 v1 v2 : wf v1 -> wf v2 ->
+  render_g ind1 d1 v1 = render_g ind2 d2 v2 -> jimage v1 = jimage v2.
+Proof.
+  intros W1 W2 E.
+  pose proof (parse_render_n ind1 (size v1) v1 (le_n _) W1 d1 (size v1 + size v2)%nat [] [] (Nat.le_add_r _ _)
+                (Forall_nil _) I) as P1.
+  pose proof (parse_render_n ind2 (size v2) v2 (le_n _) W2 d2 (size v1 + size v2)%nat [] []
+                (Nat.le_add_l _ _) (Forall_nil _) I) as P2.
+  cbn [app] in P1, P2. rewrite E, P2 in P1. injection P1 as P1. symmetry. exact P1.
+Qed.
+
+Corollary render_injective v1 v2 : wf v1 -> wf v2 -> render v1 = render v2 -> jimage v1 = jimage v2.
+Proof. apply render_g_injective. Qed.
